@@ -204,8 +204,21 @@ def graph_case(n, edges, rng, decorate):
                 body.append(["call", vis[0]])
         body.append(["mark", mk.new()])
         files[names[i] + ".zn"] = {"imports": imports, "defs": defs, "body": body}
-    return {"kind": "graph%d" % n, "root": "", "main": names[0] + ".zn", "files": files,
+    case = {"kind": "graph%d" % n, "root": "", "main": names[0] + ".zn", "files": files,
             "edges": sorted(list(e) for e in edges)}
+    return hubify(case, rng) if decorate else case
+
+
+def hubify(case, rng, p=0.25):
+    """some file that has imports (the main file included) becomes an import-only file: no definitions, no statements. Its
+    imports are evaluated all the same (bodies run, missing modules and cycles are reported), it merely exports nothing"""
+    if rng.random() < p:
+        cands = [f for f, src in case["files"].items() if src["imports"]]
+        if cands:
+            f = rng.choice(sorted(cands))
+            case["files"][f] = {"imports": case["files"][f]["imports"], "defs": [], "body": []}
+            case["hub"] = f
+    return case
 
 
 def all_digraphs(n, modulo_renaming):
@@ -375,6 +388,9 @@ def random_case(rng, kinds):
         t = rng.choice(mods)
         case["decoys"] = {t["rel"] if "/" not in t["rel"] else t["rel"].split("/")[-1]: "（显示：“DECOY”）\n"}
         feature.append("decoy")
+    hubify(case, rng)
+    if "hub" in case:
+        feature.append("import-only-file")
     for f in set(feature):
         kinds[f] = kinds.get(f, 0) + 1
     return case
